@@ -507,7 +507,13 @@ def check_proofs(w, st, out):
     foreign = [rlp.decode(v) for v in other.db.values()]
     import itertools
 
+    # claimed roots: the current one and (to bound the cost of long histories) two earlier ones
+    cur = json.dumps(st["root"])
+    olds = sorted({json.dumps(e["r"]) for e in st["needs"]} - {cur})
+    keep = {cur} | set(olds[:1] + olds[-1:])
     for e in st["needs"]:
+        if json.dumps(e["r"]) not in keep:
+            continue
         key = key_of(e["k"])
         truth = val(*e["v"])
         rh = rz.root_hash(e["r"])
@@ -530,6 +536,7 @@ def check_proofs(w, st, out):
         cases.append((others + list(reversed(need_raw)) + others, True, "shuffled"))
         for nodes, full, how in cases:
             got = offer(rh, key, nodes)
+            count("get_from_proof")
             count("get_from_proof:" + ("sufficient" if full else "forged"))
             if full:
                 if got != ("val", truth):
